@@ -32,7 +32,14 @@ Judge(r) ==
         eqSym       |-> died \/ o.eq.class # "ok" \/ o.eqrev.class # "ok" \/ o.eq.v = o.eqrev.v,
         eqStruct    |-> died \/ o.eq.class # "ok" \/ o.eq.v = (CanonType(r.x) = CanonType(r.y)),
         \* types.Unify = the transcription: success, resulting type, substitution
-        unifyOk     |-> ~answered \/ obsOk = u.ok,
+        \* (the key-kind assertion sits in the type constructor and fires on whatever intermediate type the algorithm
+        \*  builds: a refusal by it is legitimate whenever SOME map key of the operands or of the bindings is not
+        \*  keyable under the final substitution, also where the transcription's own approximation -- result and
+        \*  bindings as stored -- does not see it)
+        unifyOk     |-> ~answered \/ obsOk = u.ok
+                          \/ (refused /\ u.ok /\ ~CyclicSubst(u.m)
+                               /\ (~WellKeyed(ApplySubst(r.x, u.m)) \/ ~WellKeyed(ApplySubst(r.y, u.m))
+                                   \/ \E n \in DOMAIN u.m : ~WellKeyed(ApplySubst(u.m[n], u.m)))),
         unifyType   |-> ~obsOk \/ ~u.ok \/ o.unify.t = u.t,
         unifySubst  |-> ~answered \/ refused \/ obsOk # u.ok \/ om = u.m,
         \* property, on the OBSERVED substitution: sound, no self-containing binding
